@@ -23,6 +23,9 @@ pub struct Style {
     pub split: bool,
     pub drop_ein: bool,
     pub dreissig: bool,
+    /// partial splitting: a space after `tausend` and/or after `hundert` only (compound groups kept glued)
+    pub split_after_tausend: bool,
+    pub split_after_hundert: bool,
 }
 
 fn below_100(n: u64, is_final: bool, st: &Style, out: &mut Vec<String>) {
@@ -76,6 +79,20 @@ pub fn morphs_below_million(x: u64, is_final: bool, st: &Style) -> Vec<String> {
 fn join(morphs: &[String], st: &Style) -> String {
     if st.split {
         morphs.join(" ")
+    } else if st.split_after_tausend || st.split_after_hundert {
+        // a space after `hundert` only in the last group: a glued word never spans `tausend` when the multiplier of
+        // `tausend` itself was split (such a spelling is not a compound/split variant of anything)
+        let last_tausend = morphs.iter().rposition(|m| m == "tausend");
+        let mut s = String::new();
+        for (i, m) in morphs.iter().enumerate() {
+            s.push_str(m);
+            let last = i + 1 == morphs.len();
+            let after_last_tausend = last_tausend.map(|t| i > t).unwrap_or(true);
+            if !last && ((st.split_after_tausend && m == "tausend") || (st.split_after_hundert && m == "hundert" && after_last_tausend)) {
+                s.push(' ');
+            }
+        }
+        s
     } else {
         morphs.concat()
     }
@@ -122,6 +139,9 @@ pub fn variants(n: u64) -> Vec<Spelled> {
         Spelled { text: cardinal(n, &Style { drop_ein: true, ..d.clone() }), variant: "ein-dropped" },
         Spelled { text: cardinal(n, &Style { dreissig: true, ..d.clone() }), variant: "dreissig" },
         Spelled { text: cardinal(n, &Style { split: true, drop_ein: true, ..d.clone() }), variant: "fully-split+ein-dropped" },
+        Spelled { text: cardinal(n, &Style { split_after_tausend: true, ..d.clone() }), variant: "split-after-tausend" },
+        Spelled { text: cardinal(n, &Style { split_after_hundert: true, ..d.clone() }), variant: "split-after-hundert" },
+        Spelled { text: cardinal(n, &Style { split_after_tausend: true, split_after_hundert: true, ..d.clone() }), variant: "split-after-tausend-and-hundert" },
     ]
 }
 
